@@ -300,6 +300,13 @@ def params_cases(rng, n, reps, add, boxed_only=False):
         if not boxed_only:
             for r in ('new', 'new_vartime', 'trait'):
                 add(Case('monty.params.' + r, [M], mop='monty.params', dbg=True))
+            # conditional selection between two DIFFERENT parameter sets (moduli with different leading-zero counts):
+            # every field of the result, mod_leading_zeros included, must be that of the chosen set
+            for other in (3, (1 << 63) - 25 if n == 1 else (1 << 64) - 59, (1 << (64 * n)) - 1, modulus(rng, n)):
+                if other >= (1 << (64 * n)) or other % 2 == 0: continue
+                for flag in (0, 1):
+                    for r in ('select', 'select_form'):
+                        add(Case('monty.params.' + r, [M, to_limbs(other, n), [flag]], mop='monty.params', dbg=True))
         for r in ('new', 'new_vartime', 'trait'):
             add(Case('monty.boxed_params.' + r, [M], mop='monty.boxed_params', dbg=True))
 
